@@ -392,16 +392,21 @@ def r2(db, rep):
             rep.ok("R2-shared-table", key, facts.loc(f, n), "align_buffer(start_ - 4, ..., RADIOTAP_METADATA[bit].alignment)")
         else:
             rep.violation("R2-shared-table", key, facts.loc(f, n), "parser alignment origin/amount is not (start_ - sizeof(uint32_t), table alignment)")
-    fs = db.fns_named("Tins::Utils::RadioTapParser::skip_current_field")
-    if fs:
-        f = fs[0]
-        adv = [n for n in facts.fn_nodes(f) if n["k"] == "CompoundAssignOperator" and n.get("op") == "+=" and "current_ptr_" in facts.expr_str(n["c"][0])]
-        if adv and mentions(f, adv[0]["c"][1], ("size",)):
-            rep.ok("R2-shared-table", "parser:skip", facts.loc(f, adv[0]), "current_ptr_ += RADIOTAP_METADATA[bit].size")
-        else:
-            rep.violation("R2-shared-table", "parser:skip", facts.loc(f), "the parser does not skip a field by its table size")
+    # wherever the parser moves its cursor past a field (in whichever method that code lives), it moves by the table's size
+    advs = []
+    for f in db.functions.values():
+        if f.get("rec") == "Tins::Utils::RadioTapParser" and f.get("body"):
+            for n in facts.fn_nodes(f):
+                if n["k"] == "CompoundAssignOperator" and n.get("op") == "+=" and facts.expr_str(n["c"][0]).replace("this->", "") == "current_ptr_":
+                    advs.append((f, n))
+    if not advs:
+        rep.analysis_broken("RadioTapParser: no `current_ptr_ += ...` found (the parser's step over a field)")
     else:
-        rep.analysis_broken("RadioTapParser::skip_current_field vanished")
+        badv = [(f, n) for f, n in advs if not mentions(f, n["c"][1], ("size",))]
+        if badv:
+            rep.violation("R2-shared-table", "parser:skip", facts.loc(badv[0][0], badv[0][1]), "the parser does not skip a field by its table size")
+        else:
+            rep.ok("R2-shared-table", "parser:skip", facts.loc(advs[0][0], advs[0][1]), "current_ptr_ += RADIOTAP_METADATA[bit].size (%d site(s))" % len(advs))
 
 
 def r3(db, rep):
